@@ -369,6 +369,10 @@ class Run:
             with ctx.Pool(nproc, initializer=_worker_init, initargs=(self.mod.__name__,)) as pool:
                 results = pool.imap_unordered(_worker_run, items, chunksize=getattr(self.mod, "CHUNK", 8))
                 self._consume(results)
+                if len(self.infra) <= 3:
+                    # let the workers exit normally (tools/coverage_map.py collects their data at exit)
+                    pool.close()
+                    pool.join()
 
     def _consume(self, results):
         nt = getattr(self.mod, "nontrivial", None)
